@@ -1,17 +1,18 @@
 #!/bin/bash
 # usage: confirm_mutants.sh <ID>...   : for each /tmp/seed/<ID>/out/m*/, confirm in a scratch worktree:
-#   suite passes with patch; demo fails with patch; demo passes without patch.  Results -> /tmp/seed/confirm/<ID>_m<i>.txt
+#   suite passes with patch; demo fails with patch; demo passes without patch.  Results -> $SEED/confirm/<ID>_m<i>.txt
 set -u
 export CARGO_NET_OFFLINE=true
 WT=/tmp/seedconfirm
-mkdir -p /tmp/seed/confirm
+SEED=${SEED_ROOT:-/tmp/seed}
+mkdir -p $SEED/confirm
 [ -d $WT ] || git -C /repo worktree add --detach $WT HEAD -q
 (cd $WT && git checkout -q -- . && git clean -fdq tests src && git checkout -q --detach $(git -C /repo rev-parse HEAD))
 export TMPDIR=$WT/target/tmp; mkdir -p $TMPDIR
 for ID in "$@"; do
-  for M in /tmp/seed/$ID/out/m*/; do
+  for M in $SEED/$ID/out/m*/; do
     [ -f $M/patch.diff ] || continue
-    n=$(basename $M); OUT=/tmp/seed/confirm/${ID}_$n.txt; : > $OUT
+    n=$(basename $M); OUT=$SEED/confirm/${ID}_$n.txt; : > $OUT
     cd $WT && git checkout -q -- . && git clean -fdq tests src
     demo=tests/zz_demo_${ID}_$n.rs
     unset PEARL_COMPAT_CORPUS; [ -d $M/corpus ] && export PEARL_COMPAT_CORPUS=$M/corpus
